@@ -61,6 +61,9 @@ func (a *AliasMangler) Mangle(sf reflect.StructField) ([]reflect.StructField, er
 
 	aliasField := sf
 	aliasField.Name += aliasFieldSuffix
+	// the copy of an embedded field must not stay embedded: flattening
+	// would hoist the same promoted field names out of both copies.
+	aliasField.Anonymous = false
 
 	// now that we've copied it, reset the struct tags on the source field to
 	// not include the alias tags
